@@ -224,3 +224,27 @@ func VH_C18_IsRootedIn(k int) {
 		vAssert(full[len(r)] == '/', "the root ends at a path separator")
 	}
 }
+
+// VH_C18_RootFound: with exactly one file on disk, root + "/" + the last j path
+// elements, isRootedIn finds the remote root made of the other elements - for
+// every split point, including a file lying directly in the root.
+//
+//verif:prop C18
+//verif:param k 2..4
+//verif:param j 1..3
+func VH_C18_RootFound(k, j int) {
+	if j >= k {
+		return
+	}
+	parts := make([]string, k)
+	for i := range parts {
+		b := vBytes("part"+string(rune('0'+i)), 1)
+		vAssume(vAnd(b[0] >= 'a', b[0] <= 'z'))
+		parts[i] = string(b)
+	}
+	root := vTempRoot()
+	vSetFile(pathJoin(root, pathJoin(parts[k-j:]...)))
+	r := isRootedIn(root, parts)
+	vReach("probed with one existing file")
+	vAssert(r == pathJoin(parts[:k-j]...), "the remote root is what precedes the path that exists under the local root")
+}
